@@ -196,6 +196,10 @@ int main(int argc, char* argv[]) {
             EnsembleAverage EA(*ed->S, *ed->H, A, *ed->rho);
             EA.prepare();
             printf("AVG %d %d %s\n", i, j, pv::hexc(EA.getResult()).c_str());
+            // the same object prepared again (Susceptibility::subtractDisconnected(EnsembleAverage&, EnsembleAverage&) does that
+            // to objects the user may already have evaluated): the result must still be the trace
+            EA.prepare();
+            printf("AVGAGAIN %d %d %s\n", i, j, pv::hexc(EA.getResult()).c_str());
         } else if (c == "quad") {
             int i = L(t[1]), j = L(t[2]);
             QuadraticOperator A(*ed->Idx, *ed->S, *ed->H, i, j);
